@@ -89,7 +89,7 @@ func newReqRun(in *mInput, res *vh.Result, tr *traceWriter, shapeIdx int, rng *r
 	r.store, _ = r.c.Store().(*mcache.Store)
 	r.o = newOracle(in.Cfg, r.clock)
 	r.planted = realState{q: map[qkey]realEnt{}, z: map[zkey]realEnt{}}
-	tr.emit(map[string]any{"op": "Reset"})
+	tr.emit(map[string]any{"op": "Reset", "shape": r.sh.name, "path": id})
 	return r
 }
 
@@ -721,7 +721,7 @@ func TestRequestReplay(t *testing.T) {
 			res.Skip("kill switch state %v does not match cfg.enabled %v", r.c.VerifC13KillSwitch(), in.Cfg.Enabled)
 			break
 		}
-		if !in.Cfg.Enabled && pi%2 == 1 {
+		if !in.Cfg.Enabled && pathRand(p.ID+"/plant").Intn(2) == 1 {
 			r.plant()
 		}
 		ops := []string{}
